@@ -55,7 +55,14 @@ class Runner:
         self.dev_index = dev_index
         self.dev = cfg.devs[dev_index - 1]
         self.device = cfg.real_devices[dev_index - 1]
-        self.seq = Sequence(D.make_register(self.dev["nq"]), self.device)
+        if getattr(cfg, "mappings", None):
+            from pulser.register.mappable_reg import MappableRegister
+            from pulser.register.register_layout import RegisterLayout
+            self.layout = RegisterLayout([[6.0 * k, 0.0] for k in range(2 * self.dev["nq"] + 2)])
+            reg = MappableRegister(self.layout, *[D.qid(k) for k in range(1, self.dev["nq"] + 1)])
+        else:
+            reg = D.make_register(self.dev["nq"])
+        self.seq = Sequence(reg, self.device)
         self.V = None
         if getattr(cfg, "variables", None):
             self.V = {}
